@@ -242,7 +242,7 @@ func init() {
 
 func init() {
 	register(&Rule{
-		Name: "client-stuck-writes-bounded", Props: []string{"C12"}, Engine: "AST", Floor: 5,
+		Name: "client-stuck-writes-bounded", Props: []string{"C12"}, Engine: "AST", Floor: 6,
 		Doc: "a server that stops reading cannot hold a request past its timeout: Conn.Write, which waits for room in the request queue, also waits for the request's own verdict (the timer's) and hands it back where RoundTrip reads it; the two writers of frames that belong to no request (writeFrame, writePing) put a deadline of a positive constant on their write once they hold the write lock, and take it off when they are done; and the end of a stream that has had no header block with a final status is an error, not a response",
 		Run: func(p *Prog, r *Out) {
 			r.fn("(*Conn).Write", "(*Conn).writeFrame", "(*Conn).writePing", "(*Conn).limitControlWrite", "(*Conn).readStreamOwned")
@@ -273,6 +273,56 @@ func init() {
 				r.check(okW, "Write stops waiting for room when the request has been given up", p.pos(fd.Pos()), "select { c.in <- r; <-c.done; err := <-r.Err: put it back without blocking; return }", "Conn.Write waits for room in the request queue without also waiting for the request's own verdict: with the write loop stuck in a socket write the queue never drains, and once it is full every further request blocks here past MaxResponseTime, for good")
 			} else {
 				r.undecided("Write", "?", "(*Conn).Write no longer resolves")
+			}
+			// a request taken off the queue is the write loop's to answer: the loop does not leave, from the arm that took it, without having resolved it
+			if fd := p.decl("(*Conn).runWriteLoop"); fd != nil {
+				r.fn("(*Conn).runWriteLoop")
+				pm := p.pmFor(fd)
+				bad := ""
+				found := false
+				ast.Inspect(fd.Body, func(n ast.Node) bool {
+					cc, ok := n.(*ast.CommClause)
+					if !ok || cc.Comm == nil || squash(p.text(cc.Comm)) != "ctx:=<-c.in" {
+						return true
+					}
+					found = true
+					ast.Inspect(cc, func(x ast.Node) bool {
+						ret, isRet := x.(*ast.ReturnStmt)
+						if !isRet {
+							return true
+						}
+						resolved := false
+						var child ast.Node = ret
+						for cur := pm[child]; cur != nil; child, cur = cur, pm[cur] {
+							var list []ast.Stmt
+							switch b := cur.(type) {
+							case *ast.BlockStmt:
+								list = b.List
+							case *ast.CommClause:
+								list = b.Body
+							}
+							for _, st := range list {
+								if st.Pos() >= child.Pos() {
+									break
+								}
+								inspectCalls(st, func(c *ast.CallExpr) {
+									if squash(p.text(c.Fun)) == "ctx.resolve" {
+										resolved = true
+									}
+								})
+							}
+							if cur == ast.Node(cc) {
+								break
+							}
+						}
+						if !resolved {
+							bad = p.pos(ret.Pos())
+						}
+						return true
+					})
+					return true
+				})
+				r.check(found && bad == "", "the write loop does not leave with a request it took and did not answer", p.pos(fd.Pos()), "in `case ctx := <-c.in`: every return is preceded by ctx.resolve(...)", "the write loop can return from the arm that took a request off the queue ("+bad+") without resolving it: the request is in no table and no queue any more, so nothing the closing connection does will find it, and without a timer its caller waits for ever")
 			}
 			for _, fn := range []string{"(*Conn).writeFrame", "(*Conn).writePing"} {
 				fd := p.decl(fn)
@@ -380,6 +430,15 @@ func init() {
 					if res := firstReturn(ifs.Body); len(res) == 1 {
 						if cl, _, okE := p.errorCall(res[0]); okE {
 							class = cl
+						}
+					} else if marksMalformed(p, ifs.Body, fd) {
+						// the verdict is stored and returned, through rejectBlock, once the block is in hand
+						for _, st := range ifs.Body.List {
+							if as, isAs := st.(*ast.AssignStmt); isAs && len(as.Rhs) == 1 {
+								if cl, _, okE := p.errorCall(as.Rhs[0]); okE {
+									class = cl
+								}
+							}
 						}
 					}
 					return true
